@@ -126,15 +126,20 @@ impl FloatCase {
 }
 
 pub fn supported_cfg() -> BoxedStrategy<YuvConfig> {
-    (std_matrix(), sup_transfer(), sup_primaries(), prop_oneof![Just(8u8), Just(10u8), Just(16u8), 9u8..=16], any::<bool>(), pick_from(&SUBSAMPLINGS), 0u8..48)
-        .prop_map(|(m, t, p, d, full, ss, unspec)| {
+    (prop_oneof![5 => std_matrix(), 1 => pick_from(&super::c11::WORKING_MC[7..])], sup_transfer(), sup_primaries(), prop_oneof![Just(8u8), Just(10u8), Just(16u8), 9u8..=16], any::<bool>(), pick_from(&SUBSAMPLINGS), 0u8..48)
+        .prop_map(|(m, t, mut p, d, full, ss, unspec)| {
+            // (one config in six uses a matrix derived from the primaries; the XYZ encoding has none to derive)
+            if !crate::oracle::STD_MC.contains(&m) && p == yuvxyb::ColorPrimaries::ST428 {
+                p = yuvxyb::ColorPrimaries::BT709;
+            }
             // one config in six leaves primaries and/or transfer Unspecified: the library resolves them to supported
             // values (C15), so these are supported configurations too, and the guessing code runs. (The matrix stays
             // specified: RGB->YUV reports UnspecifiedMatrixCoefficients by design, which C15 counts and does not judge.)
             let mut c = cfg(m, t, p, d, full, ss);
             if unspec < 8 {
                 let u = if unspec & 6 == 0 { 2 } else { unspec };
-                if u & 2 != 0 {
+                // (a matrix derived from the primaries needs them: UnspecifiedColorPrimaries by design)
+                if u & 2 != 0 && crate::oracle::STD_MC.contains(&m) {
                     c.color_primaries = yuvxyb::ColorPrimaries::Unspecified;
                 }
                 if u & 4 != 0 {
@@ -214,6 +219,28 @@ pub fn run_history(start: Img, cfgp: &YuvConfig, ops: &[u8]) -> HistoryReport {
         let edges = edges_from(c.kind());
         let e = edges[*op as usize % edges.len()];
         let p = Params { cfg: *cfgp };
+        // a borrowing conversion leaves its source alive: for half of them the history goes on with the *source* object
+        // (which may then be painted through data_mut() and converted again - whatever it cached about its contents
+        // must not survive that), the result is still recorded and judged
+        let borrows = matches!(e, Edge::YuvToRgb { by_ref: true } | Edge::YuvToLin { by_ref: true } | Edge::YuvToXyb { by_ref: true } | Edge::RgbToYuv { by_ref: true, .. });
+        if borrows && (*op / 16) % 2 == 1 {
+            match catch(|| apply(e, &c, &p)) {
+                Ok(Ok(img)) => {
+                    steps.push(Step { edge: e, result: StepResult::Ok(img.kind()) });
+                    images.push(img);
+                    cur = Some(c);
+                }
+                Ok(Err(err)) => {
+                    steps.push(Step { edge: e, result: StepResult::Err(err) });
+                    break;
+                }
+                Err(pn) => {
+                    steps.push(Step { edge: e, result: StepResult::Panic(pn) });
+                    break;
+                }
+            }
+            continue;
+        }
         match catch(move || apply_owned(e, c, &p)) {
             Ok(Ok(img)) => {
                 steps.push(Step { edge: e, result: StepResult::Ok(img.kind()) });
